@@ -323,11 +323,29 @@ func vYamlSub(cn, issuer string) string { return vYaml(cn) + "issuer: " + issuer
 // answer y / n / nothing on stdin. Whenever an existing certificate would be
 // replaced (s always is: its issuer is regenerated) nothing at all changes
 // without a y; with a y every subordinate names r's current certificate.
+// vYamlDn: a configuration whose subject has three attributes; vDnDer is the
+// DER of that name written out by hand (RDNs in the documented order - the
+// reverse of the text, RFC 4514 - one
+// PrintableString attribute each).
+func vYamlDn(cn string) string {
+	return "version: 1\nsubject: C=DE, O=Acme, CN=" + cn + "\nserialNumber: 9\nvalidity:\n  from: 2024-01-01\n  until: 2031-02-03\n"
+}
+
+func vDnDer(cn string) string {
+	rdn := func(last byte, val string) string {
+		atv := string([]byte{0x06, 0x03, 0x55, 0x04, last, 0x13, byte(len(val))}) + val
+		seq := string([]byte{0x30, byte(len(atv))}) + atv
+		return string([]byte{0x31, byte(len(seq))}) + seq
+	}
+	all := rdn(3, cn) + rdn(10, "Acme") + rdn(6, "DE") // the documented order: reversed (RFC 4514)
+	return string([]byte{0x30, byte(len(all))}) + all
+}
+
 func vhCliTree() {
 	d := vNewDir()
 	defer d.cleanup()
-	d.put("r.yaml", vYaml("Root"))
-	d.put("s.yaml", vYamlSub("Sub", "r"))
+	d.put("r.yaml", vYamlDn("Root"))
+	d.put("s.yaml", vYamlDn("Sub") + "issuer: r\n")
 	vAssert(d.run(vNoFlags, "") == 0, "the first run failed")
 	r0, _ := d.get("r.pem")
 	s0, ok := d.get("s.pem")
@@ -335,6 +353,10 @@ func vhCliTree() {
 	if !ok || r0 == "" {
 		return
 	}
+	_, rs0 := filesystem.VIssuerSubjectDer(r0)
+	_, ss0 := filesystem.VIssuerSubjectDer(s0)
+	vAssert(rs0 == vDnDer("Root") && ss0 == vDnDer("Sub"), "the first run's certificates do not carry the configured subject (one RDN per attribute, documented order)")
+	rootCn := "Root"
 	switch vChoose("trigger", 4) {
 	case 0:
 		d.del("r.pem")
@@ -360,11 +382,12 @@ func vhCliTree() {
 		r0 = r0[k:]
 		d.put("r.pem", r0)
 	default:
-		d.put("r.yaml", vYaml("Root G2"))
+		d.put("r.yaml", vYamlDn("Root G2"))
+		rootCn = "Root G2"
 	}
 	newChild := vChoose("newChild", 2) == 1
 	if newChild {
-		d.put("t.yaml", vYamlSub("New", "r"))
+		d.put("t.yaml", vYamlDn("New") + "issuer: r\n")
 	}
 	rBefore, sBefore := d.stamp("r.pem"), d.stamp("s.pem")
 	answer := []string{"y\n", "n\n", ""}[vChoose("answer", 3)]
@@ -398,7 +421,9 @@ func vhCliTree() {
 	vAssert(d.stamp("s.pem") != sBefore && d.stamp("r.pem") != rBefore, "issuer and subordinate were not regenerated after y")
 	_, rSubject := filesystem.VIssuerSubjectDer(r1)
 	vAssert(len(rSubject) > 2, "r.pem has no certificate after the run")
-	sIssuer, _ := filesystem.VIssuerSubjectDer(s1)
+	vAssert(rSubject == vDnDer(rootCn), "after a confirmed replacement the root's certificate does not carry the configured subject (attributes in the documented order)")
+	sIssuer, sSubject := filesystem.VIssuerSubjectDer(s1)
+	vAssert(sSubject == vDnDer("Sub"), "after a confirmed replacement the subordinate's certificate does not carry the configured subject (attributes in the documented order)")
 	vAssert(sIssuer == rSubject, "issuer DN of s differs from the subject DN of its issuer's current certificate")
 	vAssert(tExists == newChild, "the new subordinate was not generated")
 	if tExists {
